@@ -261,6 +261,27 @@ def initialized(p):
     return t["owner"] != R.SYS and len(t["data"]) >= w and any(b != 0 for b in t["data"][:w])
 
 
+def must_succeed(p):
+    """a deliberately narrow sufficient condition under which the property demands a creation: the plain wrapper
+    (Init<Signer<_>>), a funder that is handed over or cached, both accounts distinct, signing, writable, system-owned and
+    without data, the funder able to pay the whole minimum; the target may already hold lamports (pre-funded)"""
+    k = KINDS[p["kind"]]
+    t, f = p["target"], p["funder"]
+    if p["seeded"] != 0 or p["fkind"] != 0:
+        return False
+    if not (p["argform"] in (1, 3) or p["cache"]):
+        return False
+    for a in (t, f):
+        if not (a["signer"] and a["writable"] and a["owner"] == R.SYS and len(a["data"]) == 0):
+            return False
+    if t["key"] == f["key"]:
+        return False
+    space = len(k["disc"]) + len(init_body(p))
+    minb = R.min_balance(p["lpby"], p["mult"], space)
+    # (an account larger than the runtime's per-instruction growth limit cannot be created through a CPI)
+    return space <= 10240 and f["lamports"] >= minb and t["lamports"] + minb < 2 ** 63 and f["lamports"] < 2 ** 63
+
+
 def d10_class(p):
     w = len(KINDS[p["kind"]]["disc"])
     return p["mode"] == 1 and p["target"]["owner"] != R.SYS and len(p["target"]["data"]) < w
@@ -279,6 +300,9 @@ def predicate(c, obs):
             return None
         return "panic during Init validation (an error was expected at worst)"
     if o["tag"] != 0:
+        if o["tag"] in (1, 3, 4) and must_succeed(p):
+            return ("initialisation of a fresh system account was refused (%s) although target and funder are signers, writable, "
+                    "system-owned and empty and the funder holds the whole rent-exempt minimum" % (obs[:2],))
         return None if o["tag"] in (1, 3, 4) else "malformed observation"
     t1, f1 = o["target"], o["funder"]
     # conservation, whatever happened
